@@ -25,6 +25,29 @@ CLAIMS = {
         "rollout stop => active targets; rollout set without rollout targets is rejected and changes nothing. Tied by comparing Go's split "
         "point for every percentage, cookie extraction and decision on generated headers, and rollout histories on the real Router.",
    note=TB + "Modelled stdlib: float64 rounding (2 operations), net/http readCookies, hash/fnv. Statistical uniformity of FNV-1a is not proved."),
+
+'C11': dict(engine='control', technique='Lean 4 proof (round trip of the persisted service value; restart = replacing the service list, everything commands read is in Core) + differential correspondence run with restarts at random points',
+   text="Theorems: every service value the code can produce (Restorable) is restored exactly from its snapshot - name, all service/target "
+        "options, active and rollout targets, pause state with message, max-pause and a usable release channel, split; stop/resume never "
+        "panic on such controllers; if the service list survives, no continuation of the history can tell the restarted proxy from the "
+        "original (C11_restart_invisible_partial). The list-level round trip (C11_full) is FALSE on the pinned tree (theorem "
+        "C11_full_is_false, finding F21, reproduced on the real code on every run) and is otherwise carried by the correspondence run: "
+        "a real restart (new Router + RestoreLastSavedState on the same file) at a random point of every history, all later observations compared.",
+   note=TB + "encoding/json is modelled (field list tied by the state-file key comparison). Partial: list-level round-trip theorem not proved."),
+
+'C16': dict(engine='control', technique='Lean 4 proof (decision logic stated outright over the request-path model; inheritance from the definition of the table sync) + differential correspondence run',
+   text="Theorems: TLS+redirect+plain HTTP => 301 to https://host-without-port + request-URI, independent of pause state, claiming nothing; "
+        "no TLS + arrived over TLS => 503; both precede the health-check short-circuit and the gate; a handshake gets a certificate manager "
+        "only for a non-empty name routed at / to a service whose options had TLS on at initialisation; automatic TLS with a wildcard host is "
+        "refused; a sub-path service carries the flags of the root service of its first host (TLS off if none). The statement's 'of its host' "
+        "for multi-host sub-path services is FALSE on the pinned tree (theorem C16_witness_multihost, finding F9, replayed every run).",
+   note=TB + "Modelled: crypto/tls handshake, autocert host policy, http.Redirect. Partial: percent-encoded redirect targets rely on the net/url model of C13."),
+ 'C08': dict(engine='control', technique='Lean 4 proof (request-path decision logic; escaping by kernel-checked decide over all 256 bytes, lifted by induction) + differential correspondence run',
+   text="Theorems: a stopped service answers every TLS-admissible request 503 with the current message and claims nothing, except the "
+        "health-check GET (200); resume sets running; stop records the message; the pause controller is unaffected by any deploy of the "
+        "service (successful or not); the inserted text contains no < > \" ' for every message and unescapes back to the message. Tied by "
+        "histories of stop/pause/resume/deploy/rollout with hostile messages, built-in and custom 503 pages, body text compared byte for byte.",
+   note=TB + "Modelled: html/template text-context escaper. The concurrent clause (requests arriving at any time) is carried by the proxy engine (C07)."),
 }
 
 NA_REASON = {}
